@@ -729,6 +729,12 @@ void HttpMessage::useSink(const Shared<HttpSink>& s)
 
 bool HttpMessage::sendHeaders()
 {
+	// a message whose last transfer coding is "chunked" is framed by its chunks alone: no Content-Length next to them
+	// (RFC 7230 3.3.2), whichever of put(), putFile() or the owner set one
+	Array<String> codings = header("Transfer-Encoding").toLowerCase().split(',');
+	if (codings.length() > 0 && codings.last().trimmed() == "chunked")
+		setHeader("Content-Length", String());
+
 	String s;
 	s << _command << "\r\n";
 	foreach2(String& name, String& value, _headers)
